@@ -111,7 +111,7 @@ def janus_roundtrips(res, rng, tier):
 
 def sym_roundtrips(res, rng, tier):
     """time-symmetric schemes without correctors / processors: forward n, back n returns to rounding error (A5)"""
-    cfgs = [("leapfrog", None), ("sei", None)]
+    cfgs = [("leapfrog", None), ("sei", None), ("sei", (1.0, 1.0)), ("sei", (1.0, 1.7)), ("sei", (0.5, 0.6)), ("sei", (2.0, 0.9))]
     for co in ("jacobi", "democraticheliocentric", "whds", "barycentric"):
         cfgs.append(("whfast", co))
     for t in ("1", "2", "3", "4", "10,4", "8,6,4", "10,6,4", "h8,4,4", "h8,6,4", "h10,6,4"):
@@ -136,16 +136,18 @@ def sym_roundtrips(res, rng, tier):
                 sim.ri_eos.phi0 = opt
                 sim.ri_eos.phi1 = opt
             elif name == "sei":
-                sim.ri_sei.OMEGA = 1.0
+                sim.ri_sei.OMEGA = opt[0] if opt else 1.0
+                if opt:
+                    sim.ri_sei.OMEGAZ = opt[1]       # vertical epicyclic frequency different from the orbital one
                 for p in sim.particles:
-                    p.m = 0.0
+                    p.m = 0.0 if rep % 2 == 0 else p.m * 1e-3      # without and with weak self-gravity
             s0 = [(p.x, p.y, p.z, p.vx, p.vy, p.vz) for p in sim.particles]
             n = 50
             sim.steps(n)
             sim.dt = -sim.dt
             sim.steps(n)
             err = max(abs(a - b) for p, q in zip(s0, [(p.x, p.y, p.z, p.vx, p.vy, p.vz) for p in sim.particles]) for a, b in zip(p, q))
-            key = name + (":" + opt if opt else "")
+            key = name + (":" + str(opt) if opt else "")
             worst[key] = max(worst.get(key, 0.0), err)
             if not err <= 1e-10:
                 res["violations"].append({"kind": "symmetric-roundtrip", "scheme": key, "steps": n, "error": err})
